@@ -42,26 +42,35 @@ def passesMask (mask : Nat) (t : Tok) : Bool :=
 structure ScanCfg where
   stateful : Bool
   munch : Bool
+  /-- state-dependent tokenization: `#` is a token only at the start of a line -/
+  hash : Bool
 deriving Repr, DecidableEq, Inhabited
 
-def ScanCfg.ofId (id : Nat) : ScanCfg := ⟨id % 2 == 1, (id / 2) % 2 == 1⟩
+def ScanCfg.ofId (id : Nat) : ScanCfg := ⟨id % 2 == 1, (id / 2) % 2 == 1, (id / 4) % 2 == 1⟩
+
+def kHash : Nat := 14
 
 def resOpt {α} : Res (Option α) → Option α
   | .ok a => a
   | .panic => none
 
-/-- `Sc::scan` over a source with offset zero. -/
-def scanText (cfg : ScanCfg) (t : Text) (count : Nat) (m : Metrics) (base : Pos) :
+/-- `Sc::scan` over a source with offset zero.  The scanner state is
+`2 * (number of tokens produced) + (at line start)`; initially `1`. -/
+def scanText (cfg : ScanCfg) (t : Text) (st : Nat) (m : Metrics) (base : Pos) :
     Option (Tok × Pos) × Nat :=
   let src : Source := ⟨t, m, Pos.zero⟩
+  let count := st / 2
+  let atLineStart := st % 2 == 1
   match splitAtByte t base.byte with
-  | none => (none, count)
+  | none => (none, st)
   | some (_, suf) =>
     match suf with
-    | [] => (none, count)
+    | [] => (none, st)
     | c :: rest =>
-      match kindOf c.code with
-      | none => (none, count)
+      let kind? : Option Nat :=
+        if cfg.hash && c.code == 35 then (if atLineStart then some kHash else none) else kindOf c.code
+      match kind? with
+      | none => (none, st)
       | some kind =>
         let r : Option (Nat × Pos) :=
           if kind == kWs then
@@ -71,8 +80,13 @@ def scanText (cfg : ScanCfg) (t : Text) (count : Nat) (m : Metrics) (base : Pos)
           else
             (resOpt (src.nextPosition base)).map (fun p => (kind, p))
         match r with
-        | none => (none, count)
-        | some (k, adv) => (some (⟨k, if cfg.stateful then count else 0⟩, adv), count + 1)
+        | none => (none, st)
+        | some (k, adv) =>
+          let chunk := match Source.sliceBytes t base.byte adv.byte with
+            | .ok mid => mid
+            | .panic => []
+          let ls := k == kWs && chunk.any (·.code == 10)
+          (some (⟨k, if cfg.stateful then count else 0⟩, adv), 2 * (count + 1) + (if ls then 1 else 0))
 
 def lexEnv (cfg : ScanCfg) (t : Text) : LexEnv Nat Tok :=
   { scan := scanText cfg t, passes := passesMask }
